@@ -5,3 +5,4 @@ import CssVerif.Props.C08
 import CssVerif.Props.C09
 import CssVerif.Props.C11
 import CssVerif.Props.C07
+import CssVerif.Props.C14
